@@ -268,29 +268,8 @@ func floaterRunX(id int, name string, disc *model3d.Mesh, weighting string, bnd 
 		}
 		var param *model3d.CoordMap[model2d.Coord]
 		if stretch != nil {
-			// FINDING pending: StretchMinimizingParameterization panics ("invalid stretch result") when the weight map
-			// has an entry towards a vertex all of whose triangles have three boundary vertices (the stretch of such a
-			// vertex is 0/0); Floater97UniformWeights / InvChordLengthWeights produce such entries (with a boundary
-			// vertex as centre, which Floater97 never reads).  Exactly those entries are removed here.
-			// Reproduction: /tmp/apis_findings.md
-			var drop [][2]model3d.Coord3D
-			weights.KeyRange(func(k [2]model3d.Coord3D) bool {
-				all := true
-				for _, t := range disc.Find(k[1]) {
-					for _, c := range t {
-						if _, ok := boundary.Load(c); !ok {
-							all = false
-						}
-					}
-				}
-				if all {
-					drop = append(drop, k)
-				}
-				return true
-			})
-			for _, k := range drop {
-				weights.Delete(k)
-			}
+			// the weight maps of the library's own constructors as they are (they carry entries centred on boundary
+			// vertices, which no solve reads)
 			param = model3d.StretchMinimizingParameterization(disc, boundary, weights, solver, stretch.iters, stretch.eta, false)
 		} else {
 			param = model3d.Floater97(disc, boundary, weights, solver)
